@@ -134,6 +134,10 @@ SCOPE_TEMPLATES = [
     ("global-decl", "g = 1\ndef f():\n    global g\n    g = g + 1\n    return g\nR = [f(), f(), g]\n"),
     ("global-shadow", "g = 1\ndef f():\n    g = 10\n    return g\nR = [f(), g]\n"),
     ("unbound-local", "g = 1\ndef f():\n    y = g\n    g = 2\n    return y\ntry:\n    R = f()\nexcept NameError as e:\n    R = 'NameError-family'\n"),
+    ("aug-unbound-global", "g = 1\ndef f():\n    g += 1\n    return g\ntry:\n    R = f()\nexcept NameError as e:\n    R = 'NameError-family'\nR2 = g\n"),
+    ("aug-unbound-enclosing", "def outer():\n    n = 0\n    def inc():\n        n += 1\n        return n\n    try:\n        r = inc()\n    except NameError:\n        r = 'NameError-family'\n    return [r, n]\nR = outer()\n"),
+    ("aug-local-ok", "def f(a):\n    a += 1\n    t = 2\n    t *= a\n    return t\nR = f(3)\n"),
+    ("aug-global-decl", "g = 1\ndef f():\n    global g\n    g += 5\nf()\nR = g\n"),
     ("unbound-free", "def f():\n    def inner():\n        return zq\n    return inner()\ntry:\n    R = f()\nexcept NameError as e:\n    R = 'NameError-family'\n"),
     ("loop-closures", "def mk():\n    fs = []\n    for i in range(3):\n        def f():\n            return i\n        fs.append(f)\n    return [h() for h in fs]\nR = mk()\n"),
     ("loop-closures-default", "def mk():\n    fs = []\n    for i in range(3):\n        def f(i=i):\n            return i\n        fs.append(f)\n    return [h() for h in fs]\nR = mk()\n"),
@@ -197,8 +201,13 @@ class ScopeGen:
                 body.append(f"{v} = T('{name}.set{v}', {rng.randrange(10)})")
                 if not decl or decl[1] != v:
                     locs.add(v)
-            elif k < 0.5:
+            elif k < 0.42:
                 body.append(f"{v} = T('{name}.inc{v}', {v} + 1)")
+                if not decl or decl[1] != v:
+                    locs.add(v)
+            elif k < 0.5:
+                # an augmented assignment makes the name local too (UnboundLocalError when it only exists outside)
+                body.append(f"{v} += T('{name}.aug{v}', 1)")
                 if not decl or decl[1] != v:
                     locs.add(v)
             elif k < 0.75:
